@@ -280,11 +280,31 @@ def static_tmp_check(out):
     return bad
 
 
+def random_expr(case):
+    """Seeded random nesting of convertible, built-in and device functions (beyond the enumerated shapes); the known
+    grouping / integer-division triggers are removed so that only call handling is judged."""
+    import random
+
+    rng = random.Random(case["seed"])
+    g = X.ExprGen(rng, num_vars=["A", "B", "C"], str_vars=["A$"], num_arrays=[("X", 1)], conv=True, device_funcs=True, logic=False,
+                  literals=[X.num(v) for v in (1, 2, 3, 7, 12)])
+    for _ in range(20):
+        e = g.num(rng.choice([2, 3, 3, 4])) if case["kind"] == "num" else g.str(rng.choice([2, 3]))
+        if X.all_fns(e) & {"INT", "VAL", "STR$", "HEX$", "INSTR", "STRING$", "INKEY$", "BUTTON", "JOYSTK", "POINT"}:
+            break
+    e = X.realify_divisions(X.dehazard(e))
+    from ..cbref.ast import render_expr
+    return "random:" + X.shape_key(e), e
+
+
 def run_case(case):
     obs = {"counters": {}, "viols": [], "sets": {}}
     kind = case["kind"]
     pool = NUM_EXPRS if kind == "num" else STR_EXPRS
-    ename, e = pool[case["expr"]]
+    if "seed" in case:
+        ename, e = random_expr(case)
+    else:
+        ename, e = pool[case["expr"]]
     cname = case["carrier"]
     prog = [(5, [("dim", [("X", [20], ["20"]), ("Y", [20], ["20"]), ("S$", [5], ["5"]), ("Z", [20, 5], ["20", "5"])])]), (10, SETUP), (20, FILL)] + carrier(cname, e)
     text = render(prog)
@@ -316,14 +336,14 @@ def run_case(case):
     bad = static_tmp_check(conv["out"])
     if bad is None:
         obs["viols"].append({"sig": "C05/unparseable-output/" + cls, "detail": detail})
-        return obs
+        return collapse(obs, cls)
     if bad:
         obs["viols"].append({"sig": "C05/static/tmp-read-before-assignment/" + cls, "detail": dict(detail, reads=bad[:3])})
     b = harness.run_b09(conv["out"], inputs=inputs)
     exp = expected_seq(cb["events"])
     if b["status"] != "ok":
         obs["viols"].append({"sig": "C05/b09-%s/%s" % (b["status"], cls), "detail": dict(detail, error=b["error"])})
-        return obs
+        return collapse(obs, cls)
     got = actual_seq(b["events"])
     obs["counters"]["call_sequences_compared"] = 1
     obs["counters"]["calls_expected"] = len(exp)
@@ -348,6 +368,18 @@ def run_case(case):
             obs["viols"].append({"sig": "C05/uninitialised-temporary/" + cls, "detail": dict(detail, names=tm[:4])})
     if case.get("sample"):
         obs["sample"] = {"source": detail["source"], "call_sequence": str(exp)[:300]}
+    return collapse(obs, cls)
+
+
+def collapse(obs, cls):
+    """The two carriers whose hoisting is known to be broken (pinned by tests) are reported under one signature
+    per mechanism, whatever the symptom; every other carrier keeps the symptom in its signature."""
+    if cls in ("IF-ELSE", "READ-INPUT-subscript"):
+        if obs["viols"]:
+            v = obs["viols"][0]
+            v["detail"]["symptoms"] = [x["sig"] for x in obs["viols"]]
+            v["sig"] = "C05/known-carrier/" + cls
+            obs["viols"] = [v]
     return obs
 
 
@@ -365,3 +397,9 @@ def cases(tier, seed):
             if tier == "quick" and (ei + ci) % 2 and ei > 3:
                 continue
             yield {"kind": "str", "expr": ei, "carrier": cname, "init": k % 2 == 0, "sample": k % 150 == 0}
+    nr = 300 if tier == "quick" else 30000
+    for i in range(nr):
+        if i % 3:
+            yield {"kind": "num", "seed": seed * 7907 + i, "carrier": NUM_CARRIERS[i % len(NUM_CARRIERS)], "init": i % 2 == 0}
+        else:
+            yield {"kind": "str", "seed": seed * 7907 + i, "carrier": STR_CARRIERS[i % len(STR_CARRIERS)], "init": i % 2 == 0}
